@@ -142,7 +142,7 @@ static int quiet_run;
 /* Two patterns make the unchanged library touch freed memory (ASan abort = one dead child process, seconds of
  * symbolisation): freeing the storage of an event_finalize()d event inside its finalizer when that runs in
  * event_base_free(), and evbuffer_free() inside the buffer's own immediate callback.  They are generated in every
- * 6th case only (still dozens of times per quick run); elsewhere the storage is freed after event_base_free and
+ * 8th case only (still dozens of times per quick run); elsewhere the storage is freed after event_base_free and
  * immediate-callback evbuffers are not released from their own callback. */
 static int risky_case;
 static void *deferred_free[MAXOBJ]; static int ndeferred_free;
@@ -490,6 +490,10 @@ static void final_checks(int ending, long mem0, int fds0, const char *fdlist0, i
 			if (t == T_EVBUF && !O[h->tag].defer) t = T__N;   /* slot T__N: evbuffer with immediate callbacks */
 			nb++; seen[t]++;
 		}
+		/* the tag says in whose context a block was allocated, which for blocks made while a once-event or the loop
+		 * itself was the context is only a hint: when blocks of a released-but-unfinalized object type are reported
+		 * anyway, such blocks are folded into that report (alone, they are reported under their own key) */
+		{ int typed = 0; for (i = 0; i <= T__N; i++) if (i != T_ONCE && seen[i]) typed = 1; if (typed) { seen[T_ONCE] = 0; seen[T__N + 1] = 0; } }
 		if (!quiet_run) {
 			for (i = 0; i <= T__N + 1; i++) if (seen[i]) {
 				char key[160];
@@ -533,7 +537,7 @@ static void run_case(long idx, vh_rng rng, int enum_mode)
 	int method = vh_chance(&r, 1, 3) ? (int)vh_range(&r, 1, 2) : 0;
 	struct plan pl; memset(&pl, 0, sizeof(pl));
 
-	risky_case = idx >= 0 && vh_mix64((uint64_t)idx ^ 0x715c) % 6 == 0;
+	risky_case = idx >= 0 && vh_mix64((uint64_t)idx ^ 0x715c) % 8 == 0;
 	nobj = 0; base_freed = 0; script_len = 0; script[0] = 0; vnow_ms = 0; nclients = 0;
 	mem0 = a_live; case_serial++;
 	fds0 = fd_census(fdlist0, sizeof(fdlist0));
